@@ -250,6 +250,25 @@ func fracs(fsp int, wide bool) []int {
 
 type counters struct{ evals, distinct atomic.Int64 }
 
+// ordered returns 0..max with the values of first in front (each once), so
+// that a budget cut drops interior values, not the bounds.
+func ordered(max int, first []int) []int {
+	seen := make([]bool, max+1)
+	out := make([]int, 0, max+1)
+	for _, v := range first {
+		if v >= 0 && v <= max && !seen[v] {
+			seen[v] = true
+			out = append(out, v)
+		}
+	}
+	for v := 0; v <= max; v++ {
+		if !seen[v] {
+			out = append(out, v)
+		}
+	}
+	return out
+}
+
 // deadline: the runner's budget, and for the thorough tier at most 13 minutes
 // (unless VERIF_BUDGET_S says otherwise), so that the run ends within ~15.
 var deadline time.Time
@@ -263,7 +282,18 @@ func setDeadline(r *chk.Run) {
 	}
 }
 
-func expired() bool { return time.Now().After(deadline) }
+// phaseDead caps one phase of the parent so that, on a slow machine, the early
+// products cannot use up the budget of the later ones.
+var phaseDead time.Time
+
+func capPhase(share float64) {
+	phaseDead = time.Now().Add(time.Duration(float64(time.Until(deadline)) * share))
+}
+
+func expired() bool {
+	now := time.Now()
+	return now.After(deadline) || (!phaseDead.IsZero() && now.After(phaseDead))
+}
 
 // ---- the zone independent part ---------------------------------------------------
 
@@ -373,10 +403,13 @@ func runTime2(r *chk.Run, s *sink, c *counters) {
 		nfr += len(fr[fsp])
 	}
 	var cut atomic.Bool
+	var doneHours atomic.Int64
+	hours := ordered(ref.TimeMaxHour, []int{0, 838, 1, 837, 9, 10, 99, 100, 127, 128, 255, 256, 511, 512, 767, 768, 23, 24})
 	r.Parallel(func(shard, n int) {
 		var buf []byte
 		var e int64
-		for h := shard; h <= ref.TimeMaxHour && !cut.Load(); h += n {
+		for hi := shard; hi < len(hours) && !cut.Load(); hi += n {
+			h := hours[hi]
 			for _, mi := range mins {
 				for _, sec := range secs {
 					for fsp := 1; fsp <= 6; fsp++ {
@@ -398,6 +431,7 @@ func runTime2(r *chk.Run, s *sink, c *counters) {
 					}
 				}
 			}
+			doneHours.Add(1)
 			if expired() {
 				cut.Store(true)
 			}
@@ -407,6 +441,7 @@ func runTime2(r *chk.Run, s *sink, c *counters) {
 	})
 	if cut.Load() {
 		r.SetExhaustive(false)
+		r.Set("time2_fsp1_6_budget_cut", fmt.Sprintf("%d of 839 hour values completed (bounds and bit boundaries first, then ascending)", doneHours.Load()))
 	}
 	which := "minute, second in {0,1,9,10,30,58,59}"
 	if full {
@@ -456,9 +491,7 @@ func runDateTime(r *chk.Run, s *sink, c *counters) {
 	var years []int
 	var times []hms
 	if full {
-		for y := 0; y <= 9999; y++ {
-			years = append(years, y)
-		}
+		years = ordered(9999, yearLattice)
 		times = []hms{{0, 0, 0}, {23, 59, 59}, {12, 30, 31}, {1, 1, 1}}
 	} else {
 		years = yearLattice
@@ -470,7 +503,9 @@ func runDateTime(r *chk.Run, s *sink, c *counters) {
 			}
 		}
 	}
+	capPhase(0.2)
 	var cut atomic.Bool
+	var doneYears, doneMinutes atomic.Int64
 	r.Parallel(func(shard, n int) {
 		var buf []byte
 		var e, e8 int64
@@ -484,6 +519,7 @@ func runDateTime(r *chk.Run, s *sink, c *counters) {
 					}
 				}
 			}
+			doneYears.Add(1)
 			if expired() {
 				cut.Store(true)
 			}
@@ -491,6 +527,8 @@ func runDateTime(r *chk.Run, s *sink, c *counters) {
 		c.evals.Add(e + e8)
 		c.distinct.Add(e + e8)
 	})
+	capPhase(0.3)
+	var cut2 atomic.Bool
 	// part 2: every time of day x date lattice; quick: every year x month x day lattice x one time
 	var dates []ymd
 	for _, y := range yearLattice {
@@ -502,7 +540,7 @@ func runDateTime(r *chk.Run, s *sink, c *counters) {
 	r.Parallel(func(shard, n int) {
 		var buf []byte
 		var e, e8 int64
-		for hm := shard; hm < 24*60 && !cut.Load(); hm += n {
+		for hm := shard; hm < 24*60 && !cut2.Load(); hm += n {
 			h, mi := hm/60, hm%60
 			for sec := 0; sec < 60; sec++ {
 				for _, dt := range dates {
@@ -510,8 +548,9 @@ func runDateTime(r *chk.Run, s *sink, c *counters) {
 					dtOne(&buf, s, true, dt.y, dt.m, dt.d, h, mi, sec, &fr, &e8)
 				}
 			}
+			doneMinutes.Add(1)
 			if expired() {
-				cut.Store(true)
+				cut2.Store(true)
 			}
 		}
 		if !full {
@@ -527,8 +566,9 @@ func runDateTime(r *chk.Run, s *sink, c *counters) {
 		c.evals.Add(e + e8)
 		c.distinct.Add(e + e8)
 	})
-	if cut.Load() {
+	if cut.Load() || cut2.Load() {
 		r.SetExhaustive(false)
+		r.Set("datetime_budget_cut", fmt.Sprintf("dates x time lattice: %d of %d years completed (boundary years first, then ascending); every time of day x date lattice: %d of 1440 minutes completed", doneYears.Load(), len(years), doneMinutes.Load()))
 	}
 	fsps := fmt.Sprintf("fsp 0..6 x fraction {0, 1 unit, max} (%d pairs)", nfr)
 	if full {
@@ -784,47 +824,50 @@ func child(r *chk.Run, zone string) {
 		c.distinct.Add(e)
 	})
 
-	// 3. the whole range: every second (thorough) or a stride (quick)
-	var done atomic.Int64
-	par(func(shard, n int) {
-		var buf []byte
-		var e int64
-		// blocks of 2^16 seconds dealt round robin so that a budget cut leaves a contiguous prefix
-		const blk = 1 << 16
-		for b := uint32(shard); b < 1<<15 && !cut.Load(); b += uint32(n) {
-			lo := b * blk
-			first := lo
-			if rem := lo % stride; rem != 0 {
-				first = lo + stride - rem
-			}
-			for sec := first; sec < lo+blk && sec >= lo; sec += stride {
+	// 3. the whole range. Quick: every 3607th second. Thorough: every second, in
+	// 61 passes (pass p takes the instants congruent to p modulo 61, a prime, so
+	// that every pass sweeps 1970..2038 and all clock readings): a budget cut
+	// leaves whole residue classes over the full range instead of a prefix.
+	passes, donePasses := 1, 0
+	step := uint64(stride)
+	if full {
+		passes, step = 61, 61
+	}
+	for p := 0; p < passes && !cut.Load(); p++ {
+		par(func(shard, n int) {
+			var buf []byte
+			var e int64
+			i := 0
+			for sec64 := uint64(p) + step*uint64(shard); sec64 <= uint64(tsMax); sec64 += step * uint64(n) {
+				sec := uint32(sec64)
+				if i++; i&0x3fff == 0 && (cut.Load() || expired()) {
+					cut.Store(true)
+					break
+				}
 				if sec == 0 || (!full && lat[sec]) {
 					continue
 				}
 				old(&buf, sec, false)
 				e++
-				if !full || (sec%61 == 0 && !lat[sec]) {
-					fsp := int(sec/stride) % 7
-					if full {
-						fsp = int(sec/61) % 7
-					}
-					ts2(&buf, fsp, sec, fr[fsp][int(sec>>3)%len(fr[fsp])], false)
+				if p == 0 && !lat[sec] {
+					k := int(sec64 / step)
+					fsp := k % 7
+					ts2(&buf, fsp, sec, fr[fsp][(k/7)%len(fr[fsp])], false)
 					e++
 				}
 			}
-			done.Add(1)
-			if expired() {
-				cut.Store(true)
-			}
+			c.evals.Add(e)
+			c.distinct.Add(e)
+		})
+		if !cut.Load() {
+			donePasses++
 		}
-		c.evals.Add(e)
-		c.distinct.Add(e)
-	})
+	}
 	if cut.Load() {
 		cs.Exhaustive = false
 	}
 	if full {
-		cs.Bounds = fmt.Sprintf("old TIMESTAMP: every second 1..2^31-1 (%d of 32768 blocks of 65536 s done); TIMESTAMP2: every 61st second, fsp and fraction cycling; ", done.Load())
+		cs.Bounds = fmt.Sprintf("old TIMESTAMP: every second 1..2^31-1, swept as 61 residue classes modulo 61 over the whole range (%d of 61 classes complete); TIMESTAMP2: every 61st second, fsp and fraction cycling; ", donePasses)
 	} else {
 		cs.Bounds = "old TIMESTAMP and TIMESTAMP2 (fsp, fraction cycling): every 3607th second of 1..2^31-1; "
 	}
@@ -902,8 +945,10 @@ func run(r *chk.Run) {
 	}
 	phase("date", func() { runDates(r, s, &c) })
 	phase("time 3-byte", func() { runTime3(r, s, &c) })
+	capPhase(0.25)
 	phase("time2 fsp1-6", func() { runTime2(r, s, &c) })
 	phase("datetime", func() { runDateTime(r, s, &c) })
+	phaseDead = time.Time{}
 	r.Eval(c.evals.Load())
 	r.DistinctN(c.distinct.Load())
 
